@@ -9,10 +9,10 @@ package checks
 // mirror that member's database on every monitored table.
 
 import (
-	"sync"
-	"sync/atomic"
 	"context"
 	"fmt"
+	"sync"
+	"sync/atomic"
 	"time"
 
 	"github.com/cenkalti/backoff/v4"
